@@ -51,7 +51,7 @@ def build_harness(profile="debug"):
     if os.path.exists(src):
         if not os.path.exists(lock) or open(lock, "rb").read() != open(src, "rb").read():
             shutil.copyfile(src, lock)
-    cmd = ["cargo", "build", "--offline", "--quiet"] + (["--release"] if profile == "release" else [])
+    cmd = ["cargo", "build", "--offline", "--quiet"] + (["--release"] if profile == "release" else ["--profile", profile] if profile != "debug" else [])
     rc, out = sh(cmd, cwd=HARNESS, timeout=1800, check=False)
     if rc != 0 and "Cargo.lock" in out:
         # lock file of /repo does not cover the harness' own deps: let cargo extend it offline
